@@ -36,6 +36,7 @@ impl<T, E> Approximation<T, E> {
 }
 impl Repr {
 //@@ FN rational/convert/to_f32.rs
+//@@ FN rational/convert/to_f64.rs
 }
 } // verus!
 fn main() {}
